@@ -364,3 +364,11 @@ Proof.
     { unfold has_char. simpl show. rewrite (find_char_app c_lt n _ (clean_no_lt n Hc)). reflexivity. }
     rewrite Hf. apply substitute_generic_type_name_refines_l. exact Hwf.
 Qed.
+
+Lemma subst_total_l : forall m ps t, wf t -> binds_all m ps -> range_closed m ps ->
+  exists t', substitute_generic_type_name m (show t) = show t' /\ ~ mentions ps t'.
+Proof.
+  intros m ps t Hwf Hb Hr. exists (tsubst m t). split.
+  - apply substitute_generic_type_name_refines_l. exact Hwf.
+  - apply tsubst_total_l; assumption.
+Qed.
